@@ -9,7 +9,7 @@ def specs_for(ctx, fam):
     def accept(ins):   # at least two reachable struct types with accessors
         return sum(1 for tid in find_paths(ins) if any(has_acc(f) for f in ins[tid]["fields"])) >= 2
 
-    return repo_corpus(quick) + rand_specs(ctx, 3 if quick else 24, prefix="ra", gen_cls=randschema.Gen, verifdump=fam.bins.get("verifdump"), accept=accept)
+    return repo_corpus(quick) + rand_specs(ctx, 3 if quick else 9, prefix="ra", gen_cls=randschema.Gen, verifdump=fam.bins.get("verifdump"), accept=accept)
 
 
 def plain(x):
@@ -171,7 +171,7 @@ def parse_obs(o):
 def run(ctx):
     fam = Family(ctx, PROPS, "corr:C43:acc")
     fam.prepare(specs_for(ctx, fam), driver_files=["main.go", "ops_tl1.go", "ops_reg.go", "ops_regacc.go"])
-    nscripts = 8 if ctx.quick() else 60
+    nscripts = 8 if ctx.quick() else 24
     skipped = {}
     tested_types = []
 
